@@ -6,7 +6,7 @@
    [pf] of the private parser's transitive impl list. *)
 From Coq Require Import List String Ascii Bool Arith Permutation.
 Import ListNotations.
-From Cb Require Import C18.Model C18.Import C18.Order C18.Inline.
+From Cb Require Import C18.Model C18.Import C18.Init C18.Order C18.Layers C18.Inline.
 Local Open Scope string_scope.
 Local Open Scope list_scope.
 
@@ -79,6 +79,42 @@ Proof.
 Qed.
 Print Assumptions hidden_impl_invisible_refuted.
 
+
+(* ------------------------------------------------------------------ initialisers (evaluated at import time) *)
+
+(* When the loader reaches statement k of module p, an exported variable with initialiser e, it
+   evaluates e in the state tk that the first k statements of the file have produced, and in tk
+   every module the file imports before that statement is loaded - and, if this run loaded it,
+   complete: its own imports loaded, all its exports bound - and every exported declaration that
+   precedes the statement is bound.  So an initialiser that refers only to exported names of the
+   modules its file imports (and to earlier exports of its own file) finds them, whether or not the
+   importing program imports those modules itself, and in whatever order. *)
+Theorem initialiser_sees_imports : forall fuel pf fs t p m t' k n c e,
+  mem p (loaded t) = false -> resolve fs p = Some m ->
+  handle_import (S fuel) pf fs t p = Ok t' ->
+  nth_error m k = Some (SDecl true (DVar n c (Some e))) ->
+  exists tk v,
+    run_stmts (handle_import fuel pf fs) p (firstn k m) (mark_loaded p t) = Ok tk /\
+    eval tk 0 e = VOk v /\
+    (forall r, In (SImport r) (firstn k m) ->
+       mem r (loaded tk) = true /\ (mem r (loaded t) = true \/ r = p \/ complete fs r tk)) /\
+    (forall d g key, In (SDecl true d) (firstn k m) -> In (g, key) (decl_keys p d) -> tlookup g key tk <> None).
+Proof. exact initialiser_sees_imports_l. Qed.
+Print Assumptions initialiser_sees_imports.
+
+(* the value of an initialiser depends on the tables only through the names that occur in it and in
+   the bodies of the functions it may call: whatever else an import order has bound or not is immaterial *)
+Theorem initialiser_value_local : forall e a b p,
+  (forall g k, In (g, k) (ereads e) -> tlookup g k a = tlookup g k b) -> eval a p e = eval b p e.
+Proof. exact eval_frame. Qed.
+Print Assumptions initialiser_value_local.
+
+(* a failing initialiser makes the import fail (the program ends before main) with that very error *)
+Theorem failing_initialiser_fails_import : forall t ks c e er,
+  eval t 0 e = VErr er -> apply_op t (OInit ks c e) = Err er.
+Proof. exact failing_initialiser_l. Qed.
+Print Assumptions failing_initialiser_fails_import.
+
 (* ------------------------------------------------------------------ once *)
 
 Theorem import_idempotent : forall fuel pf fs p r t,
@@ -139,6 +175,24 @@ Theorem import_order_independent_diamond : forall fuel pf fs U l1 l2 t t1 t2,
   teq t1 t2.
 Proof. exact import_order_compatible_l. Qed.
 Print Assumptions import_order_independent_diamond.
+
+
+(* Modules whose initialisers READ exports of the modules they import (chains, diamonds with
+   initialisers) are not independent and their registration steps do not commute; still the order of
+   the program's import list is immaterial: when the import graph on U is acyclic, the files in U
+   have their imports before their declarations, and any two modules of U either commute step by
+   step (disjoint or identical writes, no read of the other's writes) or one imports the other, two
+   successful permuted import sequences yield tables equal as maps.  (A load is the sequence of the
+   new modules' blocks in completion order; no module is completed before one it imports.) *)
+Theorem import_order_independent_layered : forall pf fs U rank fuel l1 l2 t t1 t2,
+  (forall p m q, In p U -> resolve fs p = Some m -> In (SImport q) m -> rank q < rank p) ->
+  (forall p m, In p U -> resolve fs p = Some m -> imports_first m = true) ->
+  layered pf fs U -> Permutation l1 l2 ->
+  load fuel pf fs l1 t = Ok t1 -> load fuel pf fs l2 t = Ok t2 ->
+  (forall q, mem q (loaded t1) = true -> mem q (loaded t) = true \/ In q U) ->
+  teq t1 t2.
+Proof. exact import_order_layered_l. Qed.
+Print Assumptions import_order_independent_layered.
 
 (* what "equal as maps" gives the interpreter: every lookup it can make answers the same *)
 Theorem equal_tables_answer_alike : forall a b, teq a b ->
@@ -224,19 +278,19 @@ Definition ex_fs : fsys :=
                 SDecl true (DInterface "IA" ["ma"]);
                 SDecl true (DImpl (mkImpl "IA" "SA" [("ma", 3)] [(1, 4)] (Some 5) ["sn"]))]);
    ("d1/d2/b.cb", [SImport "d1.a"; SDecl true (DFunc "fb" 6); SDecl true (DEnum "EB" [("X", 1)]);
-                   SDecl true (DVar "KB" true (Some 7))]);
-   ("c.cb", [SImport "d1.a"; SDecl true (DTypedef "TC" "int"); SDecl false (DVar "HC" true (Some 8))])].
+                   SDecl true (DVar "KB" true (Some (ELit 7)))]);
+   ("c.cb", [SImport "d1.a"; SDecl true (DTypedef "TC" "int"); SDecl false (DVar "HC" true (Some (ELit 8)))])].
 
 Definition ex_fs2 : fsys :=
   [("x.cb", [SDecl true (DFunc "fx" 1); SDecl true (DStruct "SX" (mkSdef false [mkMember "x" None]));
              SDecl true (DImpl (mkImpl "" "SX" [] [(1, 4)] None []))]);
    ("sub/y.cb", [SImport "x"; SDecl true (DFunc "fy" 2); SDecl true (DEnum "EY" [("A", 1)])]);
-   ("z.cb", [SDecl true (DVar "KZ" true (Some 3)); SDecl false (DFunc "fx" 9)])].
+   ("z.cb", [SDecl true (DVar "KZ" true (Some (ELit 3))); SDecl false (DFunc "fx" 9)])].
 
 Example independence_hypothesis_satisfiable : independent 4 ex_fs2 ["x"; "z"].
 Proof.
-  intros p q Hp Hq Hne x Hx Hy. simpl in Hp, Hq.
-  destruct Hp as [<-|[<-|[]]]; destruct Hq as [<-|[<-|[]]]; try congruence;
+  intros p q Hp Hq Hne. simpl in Hp, Hq.
+  destruct Hp as [<-|[<-|[]]]; destruct Hq as [<-|[<-|[]]]; try congruence; split; intros x Hx Hy;
     vm_compute in Hx; vm_compute in Hy;
     repeat (destruct Hx as [Hx|Hx]; [subst x; repeat (destruct Hy as [Hy|Hy]; [discriminate|]); tauto|]); tauto.
 Qed.
@@ -268,3 +322,55 @@ Example diamond_example : exists t,
   lookup "SA::ma" (funcs t) = Some 3 /\ find_ctor "SA" 1 (ctors t) = Some 4 /\
   lookup "HC" (vars t) = None /\ lookup "KB" (vars t) = Some (true, Some 7).
 Proof. eexists. vm_compute. repeat split. Qed.
+
+(* the seeded shape: units <- layout, layout's constants are initialised from what units exports (a variable,
+   a call), the program imports layout alone or both in either order; and a diamond on top of it *)
+Definition scale_body : expr := EAdd EParam (EVar "UNIT").
+Definition ex_init : fsys :=
+  [("units.cb", [SDecl true (DVar "UNIT" true (Some (ELit 4))); SDecl true (DFunc "scale" 11)]);
+   ("layout.cb", [SImport "units";
+                  SDecl true (DVar "ROW" true (Some (EAdd (EVar "UNIT") (EVar "UNIT"))));
+                  SDecl true (DVar "PAGE" true (Some (ECall "scale" [(11, scale_body)] (ELit 3))))]);
+   ("lib/left.cb", [SImport "layout"; SDecl true (DVar "L" false (Some (EAdd (EVar "ROW") (ELit 1))))]);
+   ("lib/right.cb", [SImport "layout"; SImport "units";
+                     SDecl true (DVar "R" false (Some (EAdd (EVar "PAGE") (EVar "units.UNIT"))))])].
+Definition ex_rank (p : name) : nat :=
+  if String.eqb p "units" then 0 else if String.eqb p "layout" then 1 else 2.
+
+Example initialisers_evaluated : exists t,
+  load 5 5 ex_init ["layout"] empty_tables = Ok t /\
+  lookup "ROW" (vars t) = Some (true, Some 8) /\ lookup "PAGE" (vars t) = Some (true, Some 7) /\
+  lookup "layout.ROW" (vars t) = Some (true, Some 8) /\ lookup "UNIT" (vars t) = Some (true, Some 4).
+Proof. eexists. vm_compute. repeat split. Qed.
+
+(* without the nested import the initialiser fails and with it the import *)
+Example initialiser_needs_import :
+  load 5 5 [("layout.cb", [SDecl true (DVar "ROW" true (Some (EVar "UNIT")))])] ["layout"] empty_tables
+  = Err (EUndefVar "UNIT").
+Proof. reflexivity. Qed.
+
+Example diamond_with_initialisers_is_layered :
+  layeredb 5 ex_init ["units"; "layout"; "lib.left"; "lib.right"] = true /\
+  rank_okb ex_init ex_rank ["units"; "layout"; "lib.left"; "lib.right"] = true /\
+  imports_firstb ex_init ["units"; "layout"; "lib.left"; "lib.right"] = true /\
+  compatibleb 5 ex_init ["units"; "layout"; "lib.left"; "lib.right"] = false.   (* the blocks do NOT commute *)
+Proof. vm_compute. repeat split. Qed.
+
+Example initialiser_permutations_agree : exists t1 t2,
+  load 6 5 ex_init ["lib.left"; "lib.right"; "units"] empty_tables = Ok t1 /\
+  load 6 5 ex_init ["units"; "lib.right"; "lib.left"] empty_tables = Ok t2 /\
+  teq t1 t2 /\ lookup "R" (vars t1) = Some (false, Some 11) /\ lookup "L" (vars t2) = Some (false, Some 9).
+Proof.
+  do 2 eexists. split; [vm_compute; reflexivity|]. split; [vm_compute; reflexivity|]. split; [|split; vm_compute; reflexivity].
+  destruct diamond_with_initialisers_is_layered as [HL [HR [HF _]]].
+  eapply (import_order_independent_layered 5 ex_init ["units"; "layout"; "lib.left"; "lib.right"] ex_rank 6
+            ["lib.left"; "lib.right"; "units"] ["units"; "lib.right"; "lib.left"] empty_tables).
+  - apply rank_okb_sound. exact HR.
+  - apply imports_firstb_sound. exact HF.
+  - apply layeredb_sound. exact HL.
+  - apply Permutation_rev.
+  - vm_compute. reflexivity.
+  - vm_compute. reflexivity.
+  - intros q Hq. right. apply mem_true_iff in Hq. vm_compute in Hq.
+    repeat (destruct Hq as [<-|Hq]; [simpl; tauto|]). destruct Hq.
+Qed.
